@@ -15,10 +15,12 @@ Min(a, b) == IF a <= b THEN a ELSE b
 RoundUp(x, a) == IF a = 0 THEN x ELSE ((x + a - 1) \div a) * a
 
 (* effective alignment of a member inside a record with the given attributes *)
+(* (clang: the packed attribute lowers the natural alignment to 1, a member-level aligned(M) raises it to at  *)
+(* least M, and #pragma pack(P) caps the result - also an explicit aligned(M) - at P)                          *)
 FieldAlign(f, packed, pack) ==
   LET nat == IF packed THEN 1 ELSE f.align
-      capped == IF pack > 0 THEN Min(nat, pack) ELSE nat
-  IN IF f.maligned > 0 THEN (IF packed \/ pack > 0 THEN f.maligned ELSE Max(capped, f.maligned)) ELSE capped
+      raised == IF f.maligned > 0 THEN Max(nat, f.maligned) ELSE nat
+  IN IF pack > 0 THEN Min(raised, pack) ELSE raised
 
 RECURSIVE StructOffsets(_, _, _, _, _)
 StructOffsets(fs, i, off, packed, pack) ==
